@@ -4,7 +4,7 @@
    argvals_stand, finding F7).  Discrete: closed under the global context. *)
 From Coq Require Import List Bool ZArith QArith.
 Local Close Scope Q_scope.
-From FDAV Require Import Model.Container Lemmas.Container Model.Normalize Lemmas.Normalize.
+From FDAV Require Import Model.Container Lemmas.Container Model.Normalize Lemmas.Normalize Gen.Normalize Lemmas.GenNormalize.
 Import ListNotations.
 
 (* an operation that does not succeed leaves the object as it was *)
@@ -104,3 +104,10 @@ Theorem C11_norm_select_refuted :
    norm_irr (select [2%nat; 0%nat] c11_parent) = select [2%nat; 0%nat] (norm_irr c11_parent))%Q.
 Proof. exact norm_select_refuted. Qed.
 Print Assumptions C11_norm_select_refuted.
+(* the model's standardisation IS the source's: [gen_norm_obs] is translated from IrregularArgvals.normalization on every run
+   (harness/reflect.py, fail-closed); the object's global range (self.min_max) is the model's gmin / gmax, tied by the run *)
+Theorem C11_source_normalization : forall obs,
+  norm_irr obs = map (gen_norm_obs (gmin obs) (gmax obs)) obs /\
+  (forall mn mx xs, gen_norm_obs mn mx xs = norm_with mn mx xs).
+Proof. intro obs. exact (conj (norm_irr_is_source obs) gen_norm_obs_is_model). Qed.
+Print Assumptions C11_source_normalization.
